@@ -14,20 +14,21 @@ ID = "C16"
 LEVEL = "exploration"
 RULE = ("random sequences (1-8) of {assign new collection, assign the field to itself, +=, |=, append, extend, insert, "
         "item assignment, slice assignment, add, update (one or several arguments), extend by itself, += / |= on the container "
-        "under another name; a second instance whose field is first written (constructor, dataclasses.replace, assignment) with the managed container of the first; falsy and iterable elements / owners; the iterable arguments given as list / tuple / generator / iterator / "
+        "under another name, a fresh individual related to the owner from the other side (the inference lands in the field and survives later assignments), an assignment that fails part way (contents afterwards not promised, later writes and inferences are); a second instance whose field is first written (constructor, dataclasses.replace, assignment) with the managed container of the first; falsy and iterable elements / owners; the iterable arguments given as list / tuple / generator / iterator / "
         "map / reversed} on a list-valued and a set-valued managed field starting from "
         "random contents (given at construction or assigned), under several PYTHONHASHSEEDs.  Non-trivial = the "
         "sequence contains at least two different operation kinds and the field ends non-empty; distinct = the "
         "sequence of operation kinds x field kind x start form")
-ASSUMPTIONS = ["the owner's other relations are pristine, so no inferred element can enter the written field",
+ASSUMPTIONS = ["inferred elements enter the written field only through the inverse-write operation (and the transitive chains of the tlist family)",
+               "the order among the inferred elements an assignment keeps is not compared",
                "relations are monotone: an element that left the field keeps its graph relations (not compared as a defect)"]
 ANCHORS = ["PropertyDescriptor.__set__", "PropertyDescriptor._ensure_monitored_type", "MonitoredList.append",
            "MonitoredList.extend", "MonitoredList.insert", "MonitoredList.__setitem__", "MonitoredSet.add",
            "MonitoredSet.update", "MonitoredContainer._on_add"]
 
 LIST_OPS = ["assign_new", "assign_self", "iadd", "append", "extend", "insert", "setitem", "setslice", "extend_self", "iadd_alias",
-            "setitem_rejected"]
-SET_OPS = ["assign_new", "assign_self", "ior", "add", "update", "update_multi", "ior_alias"]
+            "setitem_rejected", "inverse_write", "assign_rejected"]
+SET_OPS = ["assign_new", "assign_self", "ior", "add", "update", "update_multi", "ior_alias", "inverse_write", "assign_rejected"]
 # the argument of extend / += / slice assignment / update may be any iterable, also a one-shot one
 ARG_FORMS = ["list", "list", "tuple", "gen", "iter", "map", "reversed"]
 
@@ -50,7 +51,8 @@ def plan(tier):
     return {"cases": 3000 if tier == "quick" else 80000, "shards": 16, "case_timeout": 30, "shard_timeout": 3000,
             "hashseeds": [0, 1, 2, 3], "min_nontrivial": 100,
             "min_counters": {"operations_applied": 8000, "content_checks": 8000, "relation_checks": 2500,
-                             "tlist_operations": 1000, "tlist_negative_positions": 100}}
+                             "tlist_operations": 1000, "tlist_negative_positions": 100,
+                             "inverse_writes": 500, "rejected_assignments": 300}}
 
 
 def setup(ctx):
@@ -321,15 +323,33 @@ def run(spec, ctx):
     problems = []
     key = None
     kinds_seen = []
+    misfits = []
+    inferred_into = []
+    tail_free = [0]
+
+    def with_inferred(new):
+        # every assignment keeps what was inferred into the field: it is still derivable from the relations it came
+        # from (it can only be missing after an assignment that failed part way)
+        kept = [x for x in inferred_into if not any(x is v for v in new)]
+        tail_free[0] = len(kept)
+        return new + kept if kind == "list" else new | set(kept)
 
     def contents():
         v = getattr(owner, field)
         return list(v) if kind == "list" else set(v)
 
     def check(label):
+        nonlocal model
         got = contents()
         C["content_checks"] += 1
         if kind == "list":
+            k, tail_free[0] = tail_free[0], 0
+            if k >= 2 and len(got) == len(model):
+                # the order among the inferred elements an assignment keeps is not promised
+                n = len(model) - k
+                if [id(x) for x in got[:n]] == [id(x) for x in model[:n]] and \
+                        sorted(id(x) for x in got[n:]) == sorted(id(x) for x in model[n:]):
+                    model = list(got)
             ok = [id(x) for x in got] == [id(x) for x in model]
         else:
             ok = {id(x) for x in got} == {id(x) for x in model}
@@ -375,20 +395,22 @@ def run(spec, ctx):
         try:
             if op == "assign_new":
                 setattr(owner, field, mk(vals))
-                model = mk(vals)
+                # what was inferred into the field stays: it is still derivable from the relations it came from
+                model = with_inferred(mk(vals))
             elif op == "assign_self":
                 setattr(owner, field, getattr(owner, field))
+                model = with_inferred(model)
                 vals = []
             elif op == "iadd":
                 tmp = getattr(owner, field)
                 tmp += as_argument(vals, form)
                 setattr(owner, field, tmp)
-                model = model + vals
+                model = with_inferred(model + vals)
             elif op == "ior":
                 tmp = getattr(owner, field)
                 tmp |= set(vals)
                 setattr(owner, field, tmp)
-                model = model | set(vals)
+                model = with_inferred(model | set(vals))
             elif op == "append":
                 if not vals:
                     continue
@@ -455,6 +477,45 @@ def run(spec, ctx):
                 except (IndexError, ValueError):
                     pass
                 vals = []
+            elif op == "inverse_write":
+                # a fresh individual is related to the owner from the other side: the inference lands in the field
+                if twins:
+                    continue
+                fresh = (om.Org if kind == "list" else om.Person)(f"n{op_number}")
+                named[fresh.name] = fresh
+                name_of[id(fresh)] = fresh.name
+                if kind == "list":
+                    fresh.members.add(owner)
+                    model.append(fresh)
+                else:
+                    fresh.member_of.append(owner)
+                    model.add(fresh)
+                vals = []
+                inferred_into.append(fresh)
+                C["inverse_writes"] += 1
+            elif op == "assign_rejected":
+                # an assignment that fails part way (its last element cannot be related): what the field holds
+                # afterwards is not promised, only that nothing foreign is in it and that later writes work as ever
+                if twins:
+                    continue
+                bad = 5 if kind == "list" else om.Org("misfit")
+                try:
+                    setattr(owner, field, list(vals) + [bad])
+                    rejected = False
+                except (TypeError, ValueError):
+                    rejected = True
+                C["rejected_assignments"] += rejected
+                if not rejected:
+                    break       # nothing promises that such a value is refused: the history ends here
+                got = contents()
+                allowed = {id(x) for x in model} | {id(x) for x in vals} | ({id(bad)} if not rejected else set())
+                if not {id(x) for x in got} <= allowed:
+                    problems.append(f"after a rejected assignment the field holds elements that were neither in it nor assigned")
+                    break
+                got = [x for x in got if x is not bad] if kind == "list" else {x for x in got if x is not bad}
+                model = got
+                vals = []
+                misfits.append(bad)
             elif op == "add":
                 if not vals:
                     continue
@@ -519,6 +580,9 @@ def run(spec, ctx):
             facts |= {("second", field, name_of[i]) for i in second_snapshot}
         exp = OC.closure(facts, {}, {})
         rel = set(OC.observe_graph(named, SymbolGraph()))
+        if misfits:
+            # the relation to the value a rejected assignment stumbled over is not looked at
+            rel = {r for r in rel if "<foreign>" not in r}
         fields, _ = OC.observe_fields(om, named)
         if not exp <= rel:
             problems.append(f"graph lacks relations of elements written to the field: {sorted(exp - rel)[:5]} (ops {kinds_seen})")
